@@ -280,7 +280,12 @@ struct Ctx {
     pool: Option<[LintGroup; 3]>,
     tiny: LintGroup,
     tiny_age: usize,
+    /// only the five struct rules that end in a document-wide remove_overlaps (monitor of g0_inside)
+    ro: LintGroup,
 }
+
+/// the struct rules of shape Merge / ThenRemoveOverlaps (Tables_c12rules.v; C12Main.ro_bodies are their bodies)
+const RO_RULES: [&str; 5] = ["HopHope", "CompoundNouns", "PronounContraction", "CurrencyPlacement", "LetsConfusion"];
 
 fn new_group(dict: &Arc<FstDictionary>) -> LintGroup {
     let mut g = LintGroup::new_curated(dict.clone(), Dialect::American);
@@ -295,7 +300,12 @@ impl Ctx {
         let mut keys: Vec<String> = warm.iter_keys().map(|s| s.to_string()).collect();
         keys.sort();
         keys.dedup();
-        Ctx { dict, keys, warm, fresh_every, since_fresh: 0, pool: None, tiny: tiny_group(), tiny_age: 0 }
+        let mut ro = LintGroup::new_curated(dict.clone(), Dialect::American);
+        ro.set_all_rules_to(Some(false));
+        for k in RO_RULES {
+            ro.config.set_rule_enabled(k, true);
+        }
+        Ctx { dict, keys, warm, fresh_every, since_fresh: 0, pool: None, tiny: tiny_group(), tiny_age: 0, ro }
     }
     /// Three linters (one per document of a pair) whose chunk caches are never older than `fresh_every`
     /// pairs and never shared between the three documents of a pair.
@@ -667,6 +677,30 @@ fn check_pair(rep: &mut Report, cx: &mut Ctx, p: &str, d: &str, origin: &str) {
             rep.fail("warm_cache_differs", "a long-lived LintGroup (warm chunk cache) answers differently from a fresh one".into(), pair_json(p, d, origin));
         }
     }
+    // g0_inside monitor (hypothesis of C12_main): every lint of a rule that ends in a document-wide remove_overlaps
+    // lies inside ONE chunk of the document, starts before the chunk's end and is not empty-at-the-end
+    let ro_res = guarded(|| {
+        let doc = Document::new_plain_english(&whole, &dict);
+        let ls = cx.ro.lint(&doc);
+        let hulls: Vec<(usize, usize)> = doc.iter_chunks().filter_map(|c| c.span()).map(|s| (s.start, s.end)).collect();
+        (ls, hulls)
+    });
+    if let Ok((ls, hulls)) = ro_res {
+        rep.monitor("g0_inside:documents_checked", 1);
+        rep.monitor("g0_inside:lints_checked", ls.len() as u64);
+        for l in &ls {
+            let ok = hulls.iter().any(|(s, e)| *s <= l.span.start && l.span.start < *e && l.span.end <= *e);
+            if !ok {
+                rep.monitor("g0_inside:violated", 1);
+                rep.fail(
+                    "lint_outside_chunk",
+                    format!("a lint of a remove_overlaps rule ({:?}) does not lie inside one chunk: {}..{} {:?}", RO_RULES, l.span.start, l.span.end, l.message),
+                    pair_json(p, d, origin),
+                );
+                break;
+            }
+        }
+    }
     // distribution
     let in_p = lp.len();
     let in_d = ld.len();
@@ -903,6 +937,28 @@ fn gen_d_head(r: &mut Rng) -> String {
     format!("{lead}{first}{rest}")
 }
 
+/// clauses that make the rules ending in a document-wide remove_overlaps (CurrencyPlacement, merge_linters!: HopHope,
+/// LetsConfusion, PronounContraction, CompoundNouns) report, some of them OVERLAPPING lints (`5 $ 5`: `5 $` and `$ 5`)
+const RO_CLAUSES: &[&str] = &[
+    "It cost 5 $ 5 more.", "We paid 25 $ today.", "$ 25 was all.", "It was 12 £ 7 € in all.", "He owes 30$.", "A 7 $ 7 $ 7 deal.",
+    "Lets go now.", "Let's us go home.", "Lets see what happens.", "I hop to see you soon.", "We hoped on the bus.",
+    "She was hopping for the best.", "The rabbit hoped away.", "I hope you hop.", "Your right about that.", "Its you are wrong.",
+    "I think your going.", "We are in the back yard.", "Take the note book.", "A web site with a data base.", "He is a some one.",
+    "Let's a try.", "Lets not.", "We all hop so.",
+];
+
+/// (P, D): both built from RO_CLAUSES — the stream behind C12_merge_local / C12_then_remove_overlaps_local
+fn gen_overlap(r: &mut Rng) -> (String, String) {
+    let mk = |r: &mut Rng, n: usize| -> String {
+        (0..n).map(|_| if r.chance(1, 5) { gen::clean_sentence(r) } else { r.s(RO_CLAUSES).to_string() }).collect::<Vec<_>>().join(r.s(&[" ", " ", "  ", "\n"]))
+    };
+    let n = r.range(1, 3);
+    let p = strip_quotes(&mk(r, n));
+    let n = r.range(0, 3);
+    let d = mk(r, n);
+    (format!("{p}\n\n"), d)
+}
+
 /// (P, D) in which ONE clause with a pattern-rule finding occurs twice with a different amount of leading
 /// whitespace: behind another sentence of P and at the very start of D, or the other way round (seeded change
 /// c12-2: a chunk-cache key that ignores the leading whitespace while the cached spans do not).
@@ -1037,6 +1093,10 @@ pub fn run(a: &Args, corpus: &[Value]) {
     for _ in 0..a.scale(100, 1500) {
         let (p, d) = gen_repeat(&mut r);
         check_pair(&mut rep, &mut cx, &p, &d, "repeat");
+    }
+    for _ in 0..a.scale(80, 1500) {
+        let (p, d) = gen_overlap(&mut r);
+        check_pair(&mut rep, &mut cx, &p, &d, "overlap");
     }
     for _ in 0..a.scale(250, 4000) {
         let (p, d, p2, d2) = (gen_p(&mut r), gen_d(&mut r), gen_p(&mut r), gen_d(&mut r));
